@@ -230,11 +230,11 @@ def discover_name_generators(prog):
                         isinstance(e.target, App) and \
                         e.target.op == 'mcall' and \
                         e.target.args[1] == Const('labels'):
-                    x = e.args[0]
-                    if isinstance(x, App) and x.op == 'call' and \
-                            isinstance(x.args[0], FRef) and \
-                            x.args[0].fi not in out:
-                        out.append(x.args[0].fi)
+                    for x in walk(e.args[0]):
+                        if isinstance(x, App) and x.op == 'call' and \
+                                isinstance(x.args[0], FRef) and \
+                                x.args[0].fi not in out:
+                            out.append(x.args[0].fi)
     return out
 
 
